@@ -12,6 +12,7 @@ quantifies over all inputs, depths, memory limits and `sizeof` constants.
 -/
 import TlxVerif.Proofs.C03Adapters
 import TlxVerif.Proofs.C03Partition
+import TlxVerif.Proofs.C03Permute
 namespace TlxVerif.C03
 
 variable {α : Type} (str : α → Str)
@@ -169,79 +170,66 @@ theorem radix16_step (wl : Bool) (d : Nat) (ss : List α) (l : List Nat) (bsL : 
         (if wl then stepLcp16 (bsL.map List.length) d l else l)) f) :=
   step16_spec str wl d ss l bsL f hperm hne hkey hpre hf0 hfz hf
 
+/-- C03/in-place permutation: counting, inclusive prefix sum and the cycle-leader loop of
+RadixStep_CI2 / RadixStep_CI3 (array transliteration) yield a permutation of the input that is cut
+into the buckets by key, for every radix and key function -/
+theorem permute_in_place_correct (R : Nat) (key : α → Nat) (ss : List α) (hR : 0 < R)
+    (hkey : ∀ x ∈ ss, key x < R) : PermuteOk R key ss :=
+  permuteInPlace_ok R key ss hR hkey
+
 /-- C03/radixsort_CE2 incl. its memory-limit fall-back chain CE2 → CI3 → CI2 → multikey quicksort -/
-theorem radixsort_CE2_correct_partial (hPerm : PermuteAllOk α) (c : Consts) (wl : Bool)
+theorem radixsort_CE2_correct (c : Consts) (wl : Bool)
     (d : Nat) (ss : List α) (l : List Nat) (mem : Nat) (h : Pre str wl d ss l) :
     SortSpec str wl ss l (radixsortCE2 str c wl d ss l mem) :=
-  radixsortCE2_spec str c wl (multikeyQuicksort_spec str (partitionOk str) c wl) hPerm d ss l mem h
+  radixsortCE2_spec str c wl (multikeyQuicksort_spec str (partitionOk str) c wl) permuteAllOk d ss l mem h
 
 /-- C03/radixsort_CE3 (16-bit steps switching to 8-bit steps below 65536 strings) -/
-theorem radixsort_CE3_correct_partial (hPerm : PermuteAllOk α) (c : Consts) (wl : Bool)
+theorem radixsort_CE3_correct (c : Consts) (wl : Bool)
     (d : Nat) (ss : List α) (l : List Nat) (mem : Nat) (h : Pre str wl d ss l) :
     SortSpec str wl ss l (radixsortCE3 str c wl d ss l mem) :=
-  radixsortCE3_spec str c wl (multikeyQuicksort_spec str (partitionOk str) c wl) hPerm d ss l mem h
+  radixsortCE3_spec str c wl (multikeyQuicksort_spec str (partitionOk str) c wl) permuteAllOk d ss l mem h
 
-/-- C03/radixsort_CI2 -/
-theorem radixsort_CI2_correct_partial (hPerm : PermuteAllOk α) (c : Consts) (wl : Bool)
+/-- C03/radixsort_CI2 (in-place 8-bit) -/
+theorem radixsort_CI2_correct (c : Consts) (wl : Bool)
     (d : Nat) (ss : List α) (l : List Nat) (mem : Nat) (h : Pre str wl d ss l) :
     SortSpec str wl ss l (radixsortCI2 str c wl d ss l mem) :=
-  radixsortCI2_spec str c wl (multikeyQuicksort_spec str (partitionOk str) c wl) hPerm d ss l mem h
+  radixsortCI2_spec str c wl (multikeyQuicksort_spec str (partitionOk str) c wl) permuteAllOk d ss l mem h
 
-/-- C03/radixsort_CI3 -/
-theorem radixsort_CI3_correct_partial (hPerm : PermuteAllOk α) (c : Consts) (wl : Bool)
+/-- C03/radixsort_CI3 (in-place 16-bit switching to in-place 8-bit) -/
+theorem radixsort_CI3_correct (c : Consts) (wl : Bool)
     (d : Nat) (ss : List α) (l : List Nat) (mem : Nat) (h : Pre str wl d ss l) :
     SortSpec str wl ss l (radixsortCI3 str c wl d ss l mem) :=
-  radixsortCI3_spec str c wl (multikeyQuicksort_spec str (partitionOk str) c wl) hPerm d ss l mem h
+  radixsortCI3_spec str c wl (multikeyQuicksort_spec str (partitionOk str) c wl) permuteAllOk d ss l mem h
 
-/-- C03/sort_strings, sort_strings_lcp (every overload is radixsort_CE3 at depth 0): for every
-collection of NUL-free strings and every memory limit the result is a permutation of the objects
-in non-decreasing unsigned-byte order, and the LCP variant stores the exact LCPs -/
-theorem sort_strings_correct_partial (hPerm : PermuteAllOk α) (c : Consts) (wl : Bool)
+/-- **C03.**  `sort_strings` / `sort_strings_lcp` (every overload is radixsort_CE3 at depth 0):
+for every collection of NUL-free strings, every value of the memory-limit argument and every
+value of the `sizeof` constants the result is a permutation of the original string objects in
+non-decreasing unsigned-byte lexicographic order, and the LCP variant stores at every position
+`i ≥ 1` exactly the length of the longest common prefix of the strings at `i-1` and `i` -/
+theorem sort_strings_correct (c : Consts) (wl : Bool)
     (ss : List α) (l : List Nat) (mem : Nat) (hn : NulFree str ss) (hl : wl = true → l.length = ss.length) :
     SortSpec str wl ss l (sortStrings str c wl ss l mem) :=
-  radixsortCE3_spec str c wl (multikeyQuicksort_spec str (partitionOk str) c wl) hPerm 0 ss l mem
+  radixsortCE3_spec str c wl (multikeyQuicksort_spec str (partitionOk str) c wl) permuteAllOk 0 ss l mem
     ⟨fun _ _ _ _ => Nat.zero_le _, hn, hl⟩
 
-/-- C03/sort_strings, sort_strings_lcp **without the in-place fall-back**: for every collection
-of NUL-free strings and every memory limit that is 0 (the default argument) or large enough for
-the out-of-place 8-bit radix sort, the result is a permutation of the objects in non-decreasing
-unsigned-byte order and the LCP variant stores the exact LCPs — no open hypothesis -/
-theorem sort_strings_correct_out_of_place (c : Consts) (wl : Bool)
-    (ss : List α) (l : List Nat) (mem : Nat) (hmem : NoInPlaceFallback c ss.length mem)
-    (hn : NulFree str ss) (hl : wl = true → l.length = ss.length) :
-    SortSpec str wl ss l (sortStrings str c wl ss l mem) :=
-  radixsortCE3_spec_out str c wl (multikeyQuicksort_spec str (partitionOk str) c wl) 0 ss l mem hmem
-    ⟨fun _ _ _ _ => Nat.zero_le _, hn, hl⟩
-
-/-- the default call `sort_strings(strings, n)` / `sort_strings_lcp(strings, n, lcp)` (memory = 0) -/
-theorem sort_strings_correct_default (c : Consts) (wl : Bool)
-    (ss : List α) (l : List Nat) (hn : NulFree str ss) (hl : wl = true → l.length = ss.length) :
-    SortSpec str wl ss l (sortStrings str c wl ss l 0) :=
-  sort_strings_correct_out_of_place str c wl ss l 0 (by simp [NoInPlaceFallback]) hn hl
-
-/-- the detail entry points radixsort_CE2 / radixsort_CE3 under the same condition, any depth -/
-theorem radixsort_CE3_correct_out_of_place (c : Consts) (wl : Bool)
-    (d : Nat) (ss : List α) (l : List Nat) (mem : Nat) (hmem : NoInPlaceFallback c ss.length mem)
-    (h : Pre str wl d ss l) : SortSpec str wl ss l (radixsortCE3 str c wl d ss l mem) :=
-  radixsortCE3_spec_out str c wl (multikeyQuicksort_spec str (partitionOk str) c wl) d ss l mem hmem h
-
-theorem radixsort_CE2_correct_out_of_place (c : Consts) (wl : Bool)
-    (d : Nat) (ss : List α) (l : List Nat) (mem : Nat) (hmem : NoInPlaceFallback c ss.length mem)
-    (h : Pre str wl d ss l) : SortSpec str wl ss l (radixsortCE2 str c wl d ss l mem) :=
-  radixsortCE2_spec_out str c wl (multikeyQuicksort_spec str (partitionOk str) c wl) d ss l mem hmem h
-
-/-- the fact about an array loop that the theorems for CE2/CE3/CI2/CI3/sort_strings are relative to -/
-def permute_statement : Prop := ∀ (α : Type), PermuteAllOk α
--- OPEN: permute_statement — the in-place cycle-leader permutation of RadixStep_CI2/CI3 (`permuteInPlace`: counting, inclusive prefix sum, cycle-leader loop) yields a permutation cut into buckets by key; not proved (DESIGN §6 C03 Gap), tied to the code only by the exact-order correspondence.  It is reached from sort_strings only through the memory-limit fall-back radixsort_CE2 -> radixsort_CI3.
-
-/-- the property at full strength -/
-def sort_strings_correct_statement : Prop :=
-  ∀ (α : Type) (str : α → Str) (c : Consts) (wl : Bool) (ss : List α) (l : List Nat) (mem : Nat),
-    NulFree str ss → (wl = true → l.length = ss.length) → SortSpec str wl ss l (sortStrings str c wl ss l mem)
--- OPEN: sort_strings_correct_statement — follows from sort_strings_correct_partial once permute_statement is proved (likewise radixsort_CE2/CE3/CI2/CI3 at every depth); insertion_sort, multikey_quicksort, radixsort_CE0 and the 8-bit/16-bit out-of-place loops are proved outright
-
-theorem sort_strings_correct_of (h2 : permute_statement) : sort_strings_correct_statement :=
-  fun α str c wl ss l mem hn hl => sort_strings_correct_partial str (h2 α) c wl ss l mem hn hl
+/-- the same statement unfolded into the words of the property -/
+theorem sort_strings_correct_unfolded (c : Consts) (ss : List α) (l : List Nat) (mem : Nat)
+    (hn : ∀ a ∈ ss, (0 : UInt8) ∉ str a) (hl : l.length = ss.length) :
+    let out := (sortStrings str c true ss l mem).1
+    let lcps := (sortStrings str c true ss l mem).2
+    out.Perm ss ∧
+    (∀ i (h : i + 1 < out.length), str (out[i]'(by omega)) ≤ str out[i + 1]) ∧
+    (∀ i (h : i + 1 < out.length), lcps[i + 1]? = some (lcp (str (out[i]'(by omega))) (str out[i + 1]))) ∧
+    (sortStrings str c false ss [] mem).1.Perm ss ∧
+    (∀ i (h : i + 1 < (sortStrings str c false ss [] mem).1.length),
+      str ((sortStrings str c false ss [] mem).1[i]'(by omega)) ≤ str (sortStrings str c false ss [] mem).1[i + 1]) := by
+  have h1 := sort_strings_correct str c true ss l mem hn (fun _ => hl)
+  have h2 := sort_strings_correct str c false ss [] mem hn (by simp)
+  obtain ⟨p1, s1, l1⟩ := h1
+  obtain ⟨p2, s2, _⟩ := h2
+  refine ⟨p1, (sorted_iff_neighbours str _).mp s1, ?_, p2, (sorted_iff_neighbours str _).mp s2⟩
+  intro i hi
+  exact lcp_positions str _ l _ (l1 rfl) (by rw [hl]; exact p1.length_eq.symm) i hi
 
 /-! ## non-vacuity -/
 
